@@ -169,10 +169,9 @@ func (stats GetMessagesStats) NickWithFallback() string {
 	if stats.Nick != "" {
 		return stats.Nick
 	}
-	if session, err := stats.api.ircServer().GetSession(stats.Session); err == nil {
-		return session.Nick
-	}
-	return ""
+	// Not GetSession(): reading the nickname of the session it returns would
+	// race with the state machine changing it.
+	return stats.api.ircServer().GetNick(stats.Session)
 }
 
 // StartedAndRelative converts |stats.Started| into a human-readable formatted
